@@ -226,3 +226,75 @@ def lookup_sources_only_epe(i: int, x: int) -> bool:
         except ElementPathError:
             pass
     return True
+
+
+# --- added after defects reported during round 3: a table of sources around constructs whose failure paths were not exception-clean ------
+
+import xml.etree.ElementTree as _CET  # noqa: E402  (concrete documents only)
+_DOC = _CET.ElementTree(_CET.XML('<a xml:lang="zh-Hans-CN"><b xml:lang="en">1</b><c xml:lang="">x</c><d xml:lang="-"/></a>'))
+EDGE_SOURCES = (
+    ('31', '1 => ('), ('31', '1 => pfx:abs()'), ('31', '-1 => fn:1'), ('31', '1 => $f('), ('31', '(1, 2) => count() => ('), ('31', '1 => abs#1('),
+    ('31', '9' * 4400), ('31', '1e' + '9' * 40), ('1', '1 < ' + '9' * 400), ('1', '9' * 400 + ' = 1'), ('2', '1 lt ' + '9' * 400),
+    ('31', "substring('abc', 1e300)"), ('31', "substring('abc', -1e300, 1e300)"), ('31', 'subsequence((1, 2), 1e300)'), ('31', 'subsequence((1, 2), 1, 1e300)'),
+    ('31', 'remove((1, 2), 100000000000000000000000000000000)'), ('31', "insert-before((1, 2), 99999999999999999999, 3)"), ('31', 'round(1e300, 2)'),
+    ('31', 'round-half-to-even(1e300, -2)'), ('31', 'xs:integer(1e300) idiv 7'), ('31', "codepoints-to-string(xs:integer(1e10))"),
+    ('1', "//b[lang('zh')]"), ('1', "//*[lang('zh-Hans')]"), ('1', "//*[lang('')]"), ('1', "//d[lang('-')]"), ('2', "//b[lang('zh')]"), ('31', "//*[lang('EN')]"),
+    ('31', 'map{1:2} instance of map(xs:integer, xs:integer+)'), ('31', '[1] instance of array(xs:integer)+'), ('31', '[1] treat as array(xs:integer+)?'),
+    ('31', 'function($x as xs:anyAtomicType) { $x }(/)'), ('31', 'function($x as xs:anyAtomicType*) { $x }(//b)'), ('31', 'function($x as xs:numeric) { $x }(//b)'),
+    ('31', 'function($x as xs:untypedAtomic) as xs:anyAtomicType { $x }(//b)'), ('31', "let $a := / return name(.)"), ('31', 'abs#1 treat as function(*)'),
+    ('31', 'map{xs:double("NaN"): 1}(xs:float("NaN"))'),
+)
+_PARSERS = {'1': XPath1Parser, '2': XPath2Parser, '31': XPath31Parser}
+
+
+_EDGE = '''
+@ob(budget=300, bound='{n} sources (index chosen by the solver) around failed arrow expressions, literals beyond the conversion limits, huge double '
+                      'arguments, language tags, occurrence indicators on prefixed types, function conversion to xs:anyAtomicType, NaN and date '
+                      'keys: parse returns or raises ElementPathError, the same parser instance then parses 3 fixed expressions like a fresh '
+                      'one, and evaluation without context, with an integer item and with a document returns or raises ElementPathError',
+    funcs=['elementpath/tdop.py:Parser.advance', 'elementpath/xpath31/_xpath31_operators.py:led__arrow_operator', 'elementpath/helpers.py:round_number',
+           'elementpath/xpath1/_xpath1_functions.py:evaluate__lang', 'elementpath/xpath1/xpath1_parser.py:parse_occurrence',
+           'elementpath/xpath_tokens/base.py:cast_to_primitive_type'])
+def edge_sources_only_epe(i: int, x: int) -> bool:
+    """
+    pre: 0 <= i < {n}
+    post: _
+    """
+    ver, src = EDGE_SOURCES[[k for k in range({n}) if k == i][0]]
+    parser = _PARSERS[ver]()
+    tok = None
+    try:
+        tok = parser.parse(src)
+    except ElementPathError:
+        pass
+    for f in FIXED:
+        try:
+            got = _tree(parser.parse(f))
+        except ElementPathError:
+            return False
+        if got != _tree(_PARSERS[ver]().parse(f)):
+            return False
+    if tok is not None:
+        for ctx in (None, XPathContext(item=x), XPathContext(_DOC), XPathContext(_DOC, item=_DOC.getroot()[0])):
+            try:
+                tok.evaluate(ctx)
+            except ElementPathError:
+                pass
+    return True
+'''
+define(_EDGE.format(n=len(EDGE_SOURCES)), globals())
+
+COLLATION_STRINGS = ('http://[x', 'zz' + chr(0), '', ' ', '%', 'http://www.w3.org/2013/collation/UCA?lang=' + chr(0), 'a;b', '//', 'http://]', 'x:y', '?',
+                     'http://www.w3.org/2013/collation/UCA?lang=;fallback=', 'http://www.w3.org/2013/collation/UCA?fallback=no;lang=' + chr(0))
+_COLLS = '''
+@ob(budget=120, family='collation-strings', bound='history [compare with the collation string {r} ; contains with en_US.UTF-8] under every installed-locale '
+                      'configuration (16 cases chosen by the solver) on the stub locale module: ElementPathError or a result, lock free, second call as alone',
+    funcs=['elementpath/collations.py:CollationManager.__init__/__enter__'])
+def collation_string_{n}(de: bool, en_us: bool, it: bool, other: bool) -> bool:
+    """
+    post: _
+    """
+    return _history('compare', COLLATION_STRINGS[{n}], 'contains', 'en_US.UTF-8', de, en_us, it, other)
+'''
+for _n, _c in enumerate(COLLATION_STRINGS):
+    define(_COLLS.format(n=_n, r=repr(_c).replace("'", '"')), globals())
